@@ -274,7 +274,13 @@ func (p *poller) readWriteLoop() {
 							_ = c.flush()
 						} else {
 							onConnected(c, nil)
-							c.resetRead()
+							// stay registered for writability if the callback
+							// already left a backlog.
+							c.mux.Lock()
+							if len(c.writeList) == 0 {
+								c.resetRead()
+							}
+							c.mux.Unlock()
 						}
 						// EPOLLONESHOT: this event disabled the fd. When no read
 						// event came with it nothing below re-arms it, so a flush
